@@ -21,7 +21,7 @@ use crate::tape::{hash_str, mix};
 pub const VERIF_DIR: &str = "/verif";
 /// Bumped whenever a generator changes the meaning of tapes (stored reproducers / regression inputs
 /// then have to be regenerated: `regen_reproducers.py`, `make_seed_regressions.sh`).
-pub const GEN_VERSION: u32 = 14;
+pub const GEN_VERSION: u32 = 15;
 
 #[derive(Clone, Debug, PartialEq, Eq)]
 pub struct Input {
